@@ -294,18 +294,18 @@ func c15Bundle(c *eng.Ctx) {
 	for _, h := range []struct{ fld, callee string }{{"NotAfter", `pki\.getCertificateNotAfter`}, {"NotBefore", `pki\.getCertificateNotBefore`}} {
 		if v := one(h.fld); v != nil {
 			c.Clause("R5", "C15.3")
-			c.Prov(f, "Params."+h.fld, P, v, `^call:`+h.callee+`#0$`)
+			c15Prov(c, f, "Params."+h.fld, P, v, `^call:`+h.callee+`#0$`)
 			c.Clause("R2", "C15.3")
-			c.Cut(f, "return of a bundle", sinks, eng.GCallOK(f, `^`+h.callee+`$`), nil)
+			c.Cut(f, "return of a bundle", sinks, c15GCallOK(f, `^`+h.callee+`$`), nil)
 		}
 	}
 	c.Clause("R5", "C15.3")
 	for _, na := range eng.Calls(f, `^pki\.getCertificateNotAfter$`) {
-		c.Prov(f, "issuer against which NotAfter is bounded", na, na.Common().Args[2], `^param:caSign$`)
+		c15Prov(c, f, "issuer against which NotAfter is bounded", na, na.Common().Args[2], `^param:caSign$`)
 	}
 	for _, b := range c15allocs(f, "certutil.CreationBundle") {
 		for _, v := range eng.StructLitField(b, "SigningBundle") {
-			c.Prov(f, "bundle.SigningBundle", b, v, `^param:caSign$`)
+			c15Prov(c, f, "bundle.SigningBundle", b, v, `^param:caSign$`)
 		}
 		for _, v := range eng.StructLitField(b, "Params") {
 			if v != ssa.Value(P) {
@@ -442,7 +442,7 @@ func c15Validators(c *eng.Ctx) {
 				eng.G(f, `^next\(range\(requested\)\)#0$`, false)), nil)
 			c.Cut(f, "other SANs accepted", okRets, eng.Or(
 				eng.G(f, `^data\.role\.AllowedOtherSANs\[0\] == "\*"$`, true),
-				eng.GCallOK(f, `^pki\.parseOtherSANs$`)), nil)
+				c15GCallOK(f, `^pki\.parseOtherSANs$`)), nil)
 		}
 	}
 	f := c.Fn("pki.validateNames")
